@@ -52,6 +52,7 @@ fn main() {
     "chan-sched" => chan_sched(&args),
     "chan-sys" => chan_sys(&args),
     "topic-seq" => topic_seq(&args),
+    "topic-thr" => topic_thr(&args),
     "lock-seq" => lock_seq(&args),
     "loader-sched" => loader_sched(&args),
     "lock-sched" => lock_sched(&args),
@@ -297,6 +298,42 @@ fn combinations<T: Clone>(items: &[T], k: usize) -> Vec<Vec<T>> {
   let mut out = vec![];
   rec(items, k, 0, &mut vec![], &mut out);
   out
+}
+
+fn topic_thr(a: &Args) {
+  let programs = a.num("programs", 20);
+  let seed = a.num("seed", 1);
+  let kf = a.list("kf", "");
+  let out = a.get("out", "/dev/stdout");
+  let mut w = std::io::BufWriter::new(std::fs::File::create(&out).expect("create out"));
+  let (mut n_hist, mut n_hung, mut n_panic, mut n_blocked) = (0u64, 0u64, 0u64, 0u64);
+  for p in 0..programs {
+    let cfg = topic::ThrCfg { seed: seed.wrapping_mul(9_000_011).wrapping_add(p), is_async: p % 2 == 1, kf: kf.clone() };
+    let gen_ = hist::begin();
+    let r = with_watchdog(move || topic::run_threads(&cfg), Duration::from_secs(20), gen_);
+    let mut recs = hist::take();
+    match r {
+      Ok(Ok(())) => {}
+      Ok(Err(msg)) => {
+        n_panic += 1;
+        recs.push(serde_json::json!({"k":"panic","msg":msg}).to_string());
+      }
+      Err(()) => {
+        n_hung += 1;
+        recs.push(serde_json::json!({"k":"hung"}).to_string());
+      }
+    }
+    if recs.iter().any(|r| r.contains("\"tblocked\"")) {
+      n_blocked += 1;
+    }
+    hist::begin();
+    for r in recs {
+      writeln!(w, "{r}").unwrap();
+    }
+    n_hist += 1;
+  }
+  w.flush().unwrap();
+  println!("{}", serde_json::json!({"histories": n_hist, "hung": n_hung, "panics": n_panic, "blocked_receivers": n_blocked}));
 }
 
 fn topic_seq(a: &Args) {
